@@ -126,15 +126,11 @@ def run(prog, tier) -> Result:
                f"{p.var} = SIPrefix({p.name!r}, {p.abbr!r}, {p.exp}); SI: {r[0]!r}, 10^{r[1]}", sig="wrong prefix")
     if seen < 20 and len(cat.prefixes) >= 20:
         raise AnalysisError("prefix names no longer match the SI names")
-    fac = prog.method("SIPrefix", "factor")
-    rets = [n for n in ast.walk(fac.node) if isinstance(n, ast.Return)]
-    ok = len(rets) == 1 and src_of(rets[0].value).replace(" ", "") in ("Decimal(10)**self.exp", "10**Decimal(self.exp)")
-    if not ok and len(rets) == 1:
-        # accept any expression that is 10 ** self.exp up to an exact coercion
-        v = rets[0].value
-        ok = isinstance(v, ast.BinOp) and isinstance(v.op, ast.Pow) and src_of(v.right) == "self.exp" and \
-            src_of(v.left) in ("Decimal(10)", "Fraction(10)", "Decimal('10')")
-    res.ob("R20.2", "SIPrefix.factor", "10 ** exp", ok, src_of(rets[0].value) if rets else "no return",
+    prog.method("SIPrefix", "factor")
+    if cat.prefix_factor_ok is None:
+        raise AnalysisError(f"SIPrefix.factor cannot be evaluated: {cat.prefix_factor_detail}")
+    # evaluated for every prefix by Engine D (exact arithmetic; an int power with a negative exponent is a float)
+    res.ob("R20.2", "SIPrefix.factor", "10 ** exp", cat.prefix_factor_ok, cat.prefix_factor_detail,
            sig="prefix factor is not ten to the exponent")
 
     # ---- R20.3 documentation tables
